@@ -120,6 +120,39 @@ def rw_subst(text: str, pattern: str, repl: str, count=None, regex: bool = False
   return new
 
 
+def rw_option_tail(text: str) -> str:
+  """R4g: a function whose body is one tail expression `RECV.map(|x| E)` / `RECV.and_then(|x| E)` (Option receiver) becomes
+  `match RECV { Some(x) => Some(E) | E, None => None }`.  RECV and E are copied unchanged; applied repeatedly to RECV is not
+  attempted.  A non-Option receiver is a type error in Verus (UNDECIDED), never a silent change of meaning."""
+  a = fn_anatomy(text)
+  body = text[a.body_open + 1:a.body_close]
+  toks = rsitems.lex(body)
+  s = rsitems.sig(toks)
+  depth = 0
+  found = None
+  for n, k in enumerate(s):
+    t = toks[k]
+    if t.kind == 'p' and t.text in '([{': depth += 1
+    elif t.kind == 'p' and t.text in ')]}': depth -= 1
+    elif t.kind == 'p' and t.text == ';' and depth == 0:
+      raise Undecided('R4g: body of %s is not a single tail expression' % a.name)
+    elif depth == 0 and t.kind == 'p' and t.text == '.' and n + 5 < len(s):
+      t1, t2, t3, t4, t5 = (toks[s[n + i]] for i in range(1, 6))
+      if t1.kind == 'id' and t1.text in ('map', 'and_then') and t2.text == '(' and t3.text == '|' and t4.kind == 'id' and t5.text == '|':
+        found = (n, t1.text, t4.text)
+  if found is None: raise Undecided('R4g: no tail Option combinator with a closure in %s' % a.name)
+  n, comb, var = found
+  kopen = s[n + 2]
+  kclose = rsitems.match_close(toks, kopen)
+  rest = ''.join(t.text for t in toks[kclose + 1:] if t.kind not in ('ws', 'lc', 'bc'))
+  if rest: raise Undecided('R4g: combinator in %s is not in tail position' % a.name)
+  recv = body[:toks[s[n]].start]
+  clos = body[toks[s[n + 5]].end:toks[kclose].start]
+  arm = ('Some(%s)' if comb == 'map' else '%s') % ('{' + clos + '}')
+  new_body = ' match %s { Some(%s) => %s, None => None } ' % (recv.strip(), var, arm)
+  return text[:a.body_open + 1] + new_body + text[a.body_close:]
+
+
 def rw_mut_self(text: str) -> str:
   """R1: `fn f(mut self, ...) { B }` -> `fn f(self, ...) { let mut this = self; B[self:=this] }`"""
   a = fn_anatomy(text)
@@ -637,6 +670,7 @@ def build_unit(name: str, variant: Optional[str] = None, canary: bool = False) -
           new = rw_subst(new, args['pat'], args['rep'], count=args.get('count'), regex=args.get('regex', False),
                          min_count=args.get('min', 1 if not args.get('optional') else 0))
         elif rule == 'R1': new = rw_mut_self(new)
+        elif rule == 'R4g': new = rw_option_tail(new)
         elif rule == 'R2': new = rw_slice_match(new)
         elif rule == 'R10': new = rw_project_struct(new, args['keep'])
         elif rule == 'R14': new = rw_named_ops(new)
